@@ -151,10 +151,93 @@ def run_check(tier, seed):
     for (c, r, m, v), want in zip(res, meta):
         if out_of(r) != want:
             viol("clean_at_prerelease_tag", "a clean checkout at a pre-release tag of flow's own shape must yield the tag unchanged", {"request": c, "described": describe(c), "output": r[:200], "expected": want})
+
+    real_histories(run, rng, tier, viol)
     return run
+
+
+def real_histories(run, rng, tier, viol):
+    """(e) the same laws on REAL repositories through the binary (`zerv flow` reading git): the git layer decides what 'clean', 'ahead'
+    and 'the base tag' are, so a defect there (staged changes not dirty, a pre-release tag preferred to the final tag on the same commit,
+    tags read in another order) breaks the order of the versions although the flow logic is untouched."""
+    import shutil, tempfile
+    from . import gitfx
+    from .cli import run_procs
+    root = tempfile.mkdtemp(prefix="zv03-")
+    T = 1700000000
+    X, Y, Z = rng.choice([(1, 2, 3), (0, 0, 9), (7, 10, 0)])
+    final = f"v{X}.{Y}.{Z}"
+    extra_tags = [[], [("tag", f"v{X}.{Y}.{Z}-rc.2"), ("tag", f"v{X}.{Y}.{Z}-rc.10")], [("tag", f"v{X}.{Y}.{Z}-alpha.1"), ("tag", f"{X}.{Y}.{Z}rc1")],
+                  [("atag", f"v{X}.{Y}.{Z}-beta.3", T + 2), ("tag", "nightly")]]
+    states = {
+        "clean": [],
+        "staged_new_file": [("dirty", "staged")],
+        "modified_unstaged": [("dirty", "modified")],
+        "untracked": [("dirty", "untracked")],
+        "ahead1": [("commit", T + 100)],
+        "ahead3": [("commit", T + 100), ("commit", T + 200), ("commit", T + 300)],
+        "ahead1_staged": [("commit", T + 100), ("dirty", "staged")],
+        "feature_ahead2": [("branch", "feature/login-7"), ("commit", T + 100), ("commit", T + 200)],
+        "release_ahead1": [("branch", "release/2"), ("commit", T + 100)],
+        "develop_ahead1_dirty": [("branch", "develop"), ("commit", T + 100), ("dirty", "modified")],
+    }
+    jobs = []
+    try:
+        for ti, tags in enumerate(extra_tags):
+            for sn, steps in states.items():
+                # the final tag is created last or first among the tags of the commit: creation order must not matter
+                order = [("tag", final)] + tags if (ti + len(sn)) % 2 else tags + [("tag", final)]
+                path = os.path.join(root, f"r{ti}_{sn}")
+                gitfx.build_repo(path, [("commit", T)] + order + steps)
+                for out in ("semver", "pep440"):
+                    for extra in ([], ["--schema=standard-base-prerelease-post-dev"]):
+                        jobs.append((ti, sn, path, out, ["flow", f"--output-format={out}"] + extra))
+        st = run.streams.setdefault("real_git_histories_at_a_final_tag", {"repositories": len(extra_tags) * len(states), "runs": 0, "exit0": 0})
+        groups = {}
+        for j in jobs:
+            groups.setdefault(j[2], []).append(j)
+        results = {}
+        for path, js in groups.items():
+            res = run_procs([(j[4], None) for j in js], env={"TZ": "UTC"}, cwd=path)
+            for j, r in zip(js, res):
+                results[(j[2], j[3], tuple(j[4]))] = r
+        lo, hi = f"{X}.{Y}.{Z}", f"{X}.{Y}.{Z + 1}"
+        for ti, sn, path, out, argv in jobs:
+            rc, so, se = results[(path, out, tuple(argv))]
+            st["runs"] += 1
+            run.evaluations += 1
+            desc = {"repository": f"one commit tagged {final} plus {[t[1] for t in extra_tags[ti]]}, then {states[sn] or 'nothing'}", "argv": argv}
+            if rc != 0:
+                viol("real_git_histories_at_a_final_tag", "flow fails on a plain repository", {"described": desc, "stderr": se.decode("utf-8", "replace")[-300:]})
+                continue
+            st["exit0"] += 1
+            o = so.decode("utf-8", "replace").strip()
+            run.nontrivial.add(o)
+            if sn == "clean":
+                if o.split("+")[0] != lo:
+                    viol("real_git_histories_at_a_final_tag", "a clean checkout exactly at a final tag must yield exactly the tag (the final tag outranks the pre-release tags on the same commit)",
+                         {"described": desc, "output": o, "expected": lo})
+            elif not (lt(out, lo, o) and lt(out, o, hi)):
+                viol("real_git_histories_at_a_final_tag", f"X.Y.Z < V < X.Y.(Z+1) violated in the {out} order for a dirty / ahead checkout",
+                     {"described": desc, "output": o, "low": lo, "high": hi})
+        # more commits on the same branch after the same tag: strictly growing
+        for ti in range(len(extra_tags)):
+            for out in ("semver", "pep440"):
+                a = results[(os.path.join(root, f"r{ti}_ahead1"), out, ("flow", f"--output-format={out}"))]
+                b = results[(os.path.join(root, f"r{ti}_ahead3"), out, ("flow", f"--output-format={out}"))]
+                if a[0] == 0 and b[0] == 0:
+                    oa, ob = a[1].decode().strip(), b[1].decode().strip()
+                    run.evaluations += 1
+                    if not lt(out, oa, ob):
+                        viol("real_git_histories_at_a_final_tag", "adding commits must yield a strictly greater version", {"outputs": [oa, ob], "format": out})
+        run.samples.append({"stream": "real_git_histories_at_a_final_tag", "argv": jobs[0][4], "output": results[(jobs[0][2], jobs[0][3], tuple(jobs[0][4]))][1].decode("utf-8", "replace")[:200]})
+    finally:
+        shutil.rmtree(root, ignore_errors=True)
 
 
 RULE = ("requests are `zerv flow` runs (source none) with semver / pep440 text output over final-release tags x branch names x distances x dirty flags x rule sets "
         "x post modes x hash lengths x the standard presets that print the pre-release; each output is compared with the model and judged by the PUBLIC "
         "orders of the formats implemented independently in Python (SemVer section 11; PEP 440 standard _cmpkey order): exactness at the tag, strict "
-        "two-sided bound, strict growth with distance, fixed point at flow-shaped pre-release tags; non-trivial = output carries a pre-release/post/dev part")
+        "two-sided bound, strict growth with distance, fixed point at flow-shaped pre-release tags; the same laws on 40 real repositories through the binary "
+        "(final tag alone or sharing its commit with pre-release tags; clean / staged / modified / untracked / ahead on main, feature, release, develop); "
+        "non-trivial = output carries a pre-release/post/dev part")
